@@ -33,12 +33,23 @@ def combineProbes (addpath : Bool) : List Entry → ODec
   | [] => .ents []
   | e :: rest =>
       match e.nlri with
-      | .opq _ (.ents l) _ =>
-          (match combineProbes addpath rest with
-           | .ents l2 => .ents (l.map (fun x => ((if addpath then e.pid else x.1), x.2)) ++ l2)
-           | r => r)
-      | .opq _ .err _ => .err
-      | .opq _ .panic _ => .panic
+      | .opq _ dec info =>
+          -- the modelled NLRI codec when the structure is known, else the probe
+          let d : ODec := match info.st with
+            | some s =>
+                (match s.encode info.wd with
+                 | .ok bs => (match s.decodeLike (!info.wd) bs with
+                     | some s' => .ents [(0, NStruct.equiv (!info.wd) s s')]
+                     | none => .err)
+                 | _ => .err)
+            | none => dec
+          (match d with
+           | .ents l =>
+              (match combineProbes addpath rest with
+               | .ents l2 => .ents (l.map (fun x => ((if addpath then e.pid else x.1), x.2)) ++ l2)
+               | r => r)
+           | .err => .err
+           | .panic => .panic)
       | .ip .. => .err
 
 /-- Slices of `es` of the given lengths. -/
